@@ -8,7 +8,8 @@ From Verif Require Import Base.PyInt C14S.PyList C14S.StackSpec.
 Import ListNotations.
 Open Scope Z_scope.
 
-Inductive ainstr := APush (v : Z) | AMstore | AMload | ASwap (n : Z) | ADup (n : Z) | APop | APushLabel (x : Z).
+Inductive ainstr := APush (v : Z) | AMstore | AMload | ASwap (n : Z) | ADup (n : Z) | APop | APushLabel (x : Z)
+  | AJump | ALabelDef | AOp (code : Z).    (* JUMP; a label definition; the instruction's own opcode (opaque) *)
 
 Record sp := mkSp { sp_free : list Z; sp_next : Z; sp_peak : Z }.
 Definition spilled := list (Z * Z).          (* operand -> offset, insertion order *)
@@ -332,6 +333,55 @@ Definition popmany (to_pop : list Z) (a : list ainstr) (m : list Z) (s : sp) : r
       pop_each (map snd keyed) a m s
   end.
 
+(* ---- VenomCompiler._generate_evm_for_instruction for `invoke`, `ret` and plain one-to-one instructions ---- *)
+Definition optimistic_swap (equiv : Z -> Z -> bool) (next_term : bool) (live outs : list Z)
+  (a : list ainstr) (m : list Z) (s : sp) : res (list ainstr * list Z * sp) :=
+  if next_term then Ok (a, m, s) else
+  match rev live, rev outs with
+  | nxt :: _, top_out :: _ =>
+    if equiv top_out nxt then Ok (a, m, s) else
+    match spec_get_depth m nxt with
+    | None => Ok (a, m, s)
+    | Some dp => match sp_swap false dp a m s with Ok (a', m', s', _) => Ok (a', m', s') | Err e => Err e end
+    end
+  | _, _ => Ok (a, m, s)
+  end.
+
+(* kind: 0 = invoke (ops = non-label operands), 1 = ret, 2 = plain instruction with opaque opcode `code` *)
+Definition inst_tokens (kind code : Z) : list ainstr :=
+  if kind =? 0 then [APushLabel 0; APushLabel 0; AJump; ALabelDef]
+  else if kind =? 1 then [AJump] else [AOp code].
+
+Definition gen_inst (equiv : Z -> Z -> bool) (kind code : Z) (ops outs live : list Z) (next_term skip_pops : bool)
+  (a : list ainstr) (m : list Z) (s : sp) (d : spilled) : res (list ainstr * list Z * sp * spilled) :=
+  match emit_inputs (kind =? 0) ops live a m s d with
+  | Err e => Err e
+  | Ok (a1, m1, s1, d1) =>
+    match stack_reorder equiv false ops a1 m1 s1 d1 with
+    | Err e => Err e
+    | Ok (a2, m2, s2, d2, _) =>
+      if zlen m2 <? zlen ops then Err BadIndex else
+      let m3 := st_pop m2 (zlen ops) ++ outs in
+      let a3 := a2 ++ inst_tokens kind code in
+      match outs with
+      | [] => let '(s4, d4) := release_dead live s2 d2 in Ok (a3, m3, s4, d4)
+      | _ =>
+        let dead := filter (fun o => negb (py_in o live)) outs in
+        match (if negb skip_pops || (1 <? zlen outs) then popmany dead a3 m3 s2 else Ok (a3, m3, s2)) with
+        | Err e => Err e
+        | Ok (a4, m4, s4) =>
+          if forallb (fun o => negb (py_in o live)) outs then
+            let '(s5, d5) := release_dead live s4 d2 in Ok (a4, m4, s5, d5)
+          else
+            match optimistic_swap equiv next_term live outs a4 m4 s4 with
+            | Err e => Err e
+            | Ok (a5, m5, s5) => let '(s6, d6) := release_dead live s5 d2 in Ok (a5, m5, s6, d6)
+            end
+        end
+      end
+    end
+  end.
+
 (* ---- machine semantics of the emitted assembly: EVM stack (top first) + word memory keyed by offset ---- *)
 Definition mem := Z -> Z.
 Definition mset (mm : mem) (o v : Z) : mem := fun x => if x =? o then v else mm x.
@@ -345,6 +395,9 @@ Definition step (i : ainstr) (sm : list Z * mem) : option (list Z * mem) :=
   | ADup n => match evm_dup n s with Some s' => Some (s', mm) | None => None end
   | APop => match s with _ :: r => Some (r, mm) | [] => None end
   | APushLabel x => Some (x :: s, mm)
+  | AJump => match s with _ :: r => Some (r, mm) | [] => None end     (* linear reading: consumes the target *)
+  | ALabelDef => Some (s, mm)
+  | AOp _ => None                                                     (* not executable on this machine *)
   end.
 Fixpoint run (l : list ainstr) (sm : list Z * mem) : option (list Z * mem) :=
   match l with [] => Some sm | i :: r => match step i sm with Some sm' => run r sm' | None => None end end.
@@ -354,6 +407,7 @@ Definition depth_ok (i : ainstr) : bool :=
 
 (* printing helper for the harness: encode instructions as numbers *)
 Definition enc_instr (i : ainstr) : list Z :=
-  match i with APush v => [1; v] | AMstore => [2] | AMload => [3] | ASwap n => [4; n] | ADup n => [5; n] | APop => [6] | APushLabel x => [7; x] end.
+  match i with APush v => [1; v] | AMstore => [2] | AMload => [3] | ASwap n => [4; n] | ADup n => [5; n] | APop => [6] | APushLabel x => [7; x]
+  | AJump => [9] | ALabelDef => [8] | AOp c => [10; c] end.
 Definition err_code (e : err) : Z :=
   match e with AssertFail => 1 | BadIndex => 2 | KeyErr => 3 | TypeErr => 4 | OutOfFuel => 5 | _ => 9 end.
